@@ -40,7 +40,7 @@ func (m *Mon) Event(end, what string, data []byte) {
 	switch what {
 	case "send.enter":
 		m.Log.Add("wire."+end, "send", string(data))
-	case "recv.exit", "close.enter", "close.exit":
+	case "recv.exit", "close.enter", "close.exit", "fault.send", "fault.recv":
 		m.Log.Add("wire."+end, what, string(data))
 	}
 }
@@ -54,6 +54,7 @@ type ServerOpts struct {
 	FailOnDiscipline bool
 	BaseContext      func() context.Context
 	Assigner         jrpc2.Assigner // default: the rig's Handlers
+	Faults           []vchan.Fault  // installed on the server's end before Start
 	RPCLog           jrpc2.RPCLogger
 }
 
@@ -81,6 +82,9 @@ func NewServerRig(c *vt.Ctx, ctrl *sched.Controller, o ServerOpts) *ServerRig {
 	r.Mon = &Mon{C: c, Log: log, FailOnDiscipline: o.FailOnDiscipline}
 	r.Peer, r.End = vchan.NewPair("cli", "srv", r.Mon)
 	r.End.PipeLike = o.PipeLike
+	for _, f := range o.Faults {
+		r.End.AddFault(f)
+	}
 	var asg jrpc2.Assigner = r.H
 	if o.Assigner != nil {
 		asg = o.Assigner
